@@ -50,6 +50,7 @@ structure NodeInv (h : NNet) (c : Nat) (m : NNet) (dn : Nat) (hn : String) (pre 
   nsize : h.net.nodes.size ≤ st.1.net.nodes.size
   msize : st.2.size = m.net.nodes.size
   names : st.1.names.size = st.1.net.nodes.size
+  nameHost : ∀ d, d < h.net.nodes.size → st.1.names.getD d "" = h.names.getD d ""
   nodup : st.1.keys.Nodup
   host : ∀ d, d < h.net.nodes.size → d ≠ c → st.1.net.node d = h.net.node d
   cell : st.1.net.node c = ⟨(m.net.node dn).kind, [], []⟩
@@ -80,7 +81,7 @@ theorem nodeInv_phase1 (h : NNet) (c : Nat) (m : NNet) (dn : Nat) (hn : String) 
     · subst e; simp [Array.getElem?_eq_getElem hc]
     · have : ¬ d = c := fun x => e x.symm
       simp [e, this]
-  refine ⟨rfl, rfl, w.io, by simp [phase1], by simp [phase1], by simpa [phase1] using w.names, ?_, ?_, ?_, ?_, ?_, ?_, ?_, ?_, ?_, ?_⟩
+  refine ⟨rfl, rfl, w.io, by simp [phase1], by simp [phase1], by simpa [phase1] using w.names, fun _ _ => rfl, ?_, ?_, ?_, ?_, ?_, ?_, ?_, ?_, ?_, ?_⟩
   · -- keys unchanged
     have : (phase1 h c m (some dn)).1.keys = h.keys := by
       simp only [NNet.keys]
@@ -208,7 +209,11 @@ theorem nodeInv_add {h : NNet} {c : Nat} {m : NNet} {dn : Nat} {hn : String} {pr
     · have : ¬ k = j := fun x => e x.symm
       simp [e, this]
   refine ⟨e2.trans iv.lines, e3.trans iv.io, iv.ioLt, by rw [hsz]; have := iv.nsize; omega, by simp [iv.msize],
-    by rw [e4, hsz]; simp [iv.names], ?_, ?_, ?_, ?_, ?_, ?_, ?_, ?_, ?_, ?_⟩
+    by rw [e4, hsz]; simp [iv.names], ?_, ?_, ?_, ?_, ?_, ?_, ?_, ?_, ?_, ?_, ?_⟩
+  · intro d hd
+    rw [e4, names_push_getD]
+    have : d < st.1.names.size := by rw [iv.names]; exact Nat.lt_of_lt_of_le hd iv.nsize
+    rw [if_pos this]; exact iv.nameHost d hd
   · rw [keys_eq, hobs.1, List.map_append, ← keys_eq]
     refine List.nodup_append.mpr ⟨iv.nodup, by simp, ?_⟩
     intro a ha b hb
